@@ -163,7 +163,7 @@ def corr_pyhash(ck):
     for v in meta:
         ck.case(('hash', v))
         ck.count('pyhash:' + kind_of(v))
-    ok, failing, log = coqcases.run_cases('c17h', IMPORTS, cases, extra=HASH_EXTRA, shard=900)
+    ok, failing, log = coqcases.run_cases('c17h', IMPORTS, cases, extra=HASH_EXTRA, shard=400)
     good = ok and not failing
     ck.oblige(f'correspondence: PyHash.py_hash / hash_ztuple == hash() of the running interpreter on {len(cases)} values', good,
               'correspondence', log or str([meta[i] for i in failing[:5]]))
@@ -817,12 +817,22 @@ def search_molecule_(ck, tag, smi, m, rng, budget_params):
             cx(ck, f'morgan_hash_smiles_keys:{tag}', 'keys of morgan_hash_smiles differ from morgan_hash_set', {'molecule': tag}, len(a), len(m.morgan_hash_set(1, 3)), 'self-consistency')
         elif a != c:
             diff = [k for k in a if a[k] != c.get(k)][:2]
-            cx(ck, f'morgan_hash_smiles_renumbering:{tag}', 'morgan_hash_smiles changes under renumbering',
+            # the known defect (see known_witness): the canonical SMILES of a substructure with pseudo-asymmetric ring stereo
+            # depends on the numbering; it changes stereo marks only.  Anything else is a new counterexample
+            stereo_only = {k: sorted(map(strip_stereo, v)) for k, v in a.items()} == {k: sorted(map(strip_stereo, v)) for k, v in c.items()}
+            cx(ck, KNOWN_MORGAN_KEY if stereo_only else f'morgan_hash_smiles_renumbering:{tag}', 'morgan_hash_smiles changes under renumbering',
                               {'molecule': tag, 'mapping': dict(zip(m._atoms, m2._atoms))}, [c.get(k) for k in diff], [a[k] for k in diff], 'renumbering')
+            ck.count('search:morgan_hash_smiles differs in stereo marks only (known)' if stereo_only else 'search:morgan_hash_smiles differs')
     return n_eval
 
 
 KNOWN_SMILES = 'C[O-].[OH-]'
+KNOWN_MORGAN_SMILES = 'O[C@H]1C[C@@H](O)C1'
+KNOWN_MORGAN_KEY = 'morgan_hash_smiles-numbering:' + KNOWN_MORGAN_SMILES
+
+
+def strip_stereo(s):
+    return s.replace('@', '').replace('/', '').replace('\\', '')
 
 
 def known_witness(ck):
@@ -848,6 +858,22 @@ def known_witness(ck):
                           [d[1] for d in diff], [d[0] for d in diff], 'same molecule, other numbering',
                           replay_py="from chython import smiles\nm = smiles('C[O-].[OH-]'); a = m.linear_hash_smiles(1, 1)\n"
                                     "m.remap({2: 3, 3: 2}); b = m.linear_hash_smiles(1, 1)\nprint(sorted(a.items())); print(sorted(b.items()))")
+    # morgan_hash_smiles: the SMILES of an augmented substructure is chython's canonical string, which depends on the numbering for
+    # pseudo-asymmetric ring stereo (cis-1,3-cyclobutanediol: both labels flip); hash sets / keys are not affected
+    m = parse(KNOWN_MORGAN_SMILES)
+    if m is None:
+        return
+    a = {k: sorted(v) for k, v in m.morgan_hash_smiles(1, 3).items()}
+    m2 = m.copy()
+    m2.remap({1: 1, 2: 2, 3: 4, 4: 5, 5: 6, 6: 3})
+    c = {k: sorted(v) for k, v in m2.morgan_hash_smiles(1, 3).items()}
+    ck.case(('known-witness', KNOWN_MORGAN_SMILES))
+    if a != c:
+        diff = [k for k in a if a[k] != c.get(k)][:2]
+        cx(ck, KNOWN_MORGAN_KEY, 'morgan_hash_smiles(1, 3) of cis-1,3-cyclobutanediol depends on the atom numbering', {'smiles': KNOWN_MORGAN_SMILES,
+           'mapping': {1: 1, 2: 2, 3: 4, 4: 5, 5: 6, 6: 3}}, [c.get(k) for k in diff], [a[k] for k in diff], 'same molecule, other numbering',
+           replay_py="from chython import smiles\nm = smiles('O[C@H]1C[C@@H](O)C1'); a = m.morgan_hash_smiles(1, 3)\n"
+                     "m.remap({1: 1, 2: 2, 3: 4, 4: 5, 5: 6, 6: 3}); b = m.morgan_hash_smiles(1, 3)\nprint(sorted(a.items())); print(sorted(b.items()))")
 
 
 def search(ck, n_corpus, n_generated):
